@@ -230,9 +230,13 @@ func (p *Policy) Clamp(in *dns.EDNS0_SUBNET) *dns.EDNS0_SUBNET {
 //     (privacy violation), clamp down to SOURCE so the misbehaving
 //     authority can't widen our cache key past what we forwarded.
 //
-//   - Stage-2 cardinality cap: scopes narrower than MinScopeV4 /
-//     MinScopeV6 are widened to the minimum, capping the worst-case
-//     entry count per name.
+//   - Stage-2 cardinality cap: a scope that is still narrower than
+//     MinScopeV4 / MinScopeV6 after the SOURCE clamp is refused — the
+//     zero Prefix is returned and the caller stores nothing. It is
+//     never widened to the minimum: the authority tailored the answer
+//     to that narrower subnet only, and an entry filed under the
+//     enclosing min-scope prefix would be served to every other subnet
+//     inside it (RFC 7871 §7.3.1).
 //
 // Used by middleware/cache when storing a scoped answer in Stage 2.
 // A nil *Policy returns the input unchanged.
@@ -251,11 +255,11 @@ func (p *Policy) ClampScope(scope, source netip.Prefix) netip.Prefix {
 	switch {
 	case scope.Addr().Is4():
 		if uint8(bits) > p.MinScopeV4 { //nolint:gosec // bits ≤ 32 for v4
-			bits = int(p.MinScopeV4)
+			return netip.Prefix{}
 		}
 	case scope.Addr().Is6():
 		if uint8(bits) > p.MinScopeV6 { //nolint:gosec // bits ≤ 128, fits uint8
-			bits = int(p.MinScopeV6)
+			return netip.Prefix{}
 		}
 	}
 
